@@ -85,6 +85,7 @@ def run(rep):
     # a setup failure can be a timing hiccup of the real poller: re-run those cells alone before judging
     retry = [o for o, i, m in diffs if i.startswith('setup-failed') or 'hang' in i or 'noslot' in i]
     if retry:
+        retry = retry[:40]     # enough to tell a timing hiccup from a real hang; re-running thousands of hanging cells is pointless
         p = os.path.join(wd, 'retry.ops'); open(p, 'w').write('\n'.join(retry) + '\n')
         subprocess.run([binary, '-replay', p, '-impl-out', os.path.join(wd, 'retry.impl')], check=True, timeout=900)
         for o, i in zip(retry, open(os.path.join(wd, 'retry.impl')).read().split('\n')):
